@@ -1,5 +1,6 @@
 SPECIFICATION Spec
 CONSTANTS
+    AcceptLoopSurvives = TRUE
     EnvSet <- Envs
     ProxySyntaxSilent = TRUE
     MaxConns = 0
